@@ -167,7 +167,8 @@ fn hostile_frames(r: &mut Rng, n: usize) -> Vec<Vec<u8>> {
 }
 
 struct PerPacket {
-    accepted: bool,
+    /// accepted by the (HTTP, TCP, TLS) reference analyzers
+    accepted: (bool, bool, bool),
     fields: Vec<Field>,
 }
 
@@ -212,7 +213,7 @@ pub fn run(ctx: &mut Ctx) {
                     break;
                 }
                 Ok((h, tr, l)) => {
-                    let accepted = h.is_ok() && matches!(&tr, Some(Ok(_))) && l.is_ok();
+                    let accepted = (h.is_ok(), matches!(&tr, Some(Ok(_))), l.is_ok());
                     let mut fields = Vec::new();
                     if let Some(Ok(tr)) = &tr {
                         fields.extend(fields_tcp(tr));
@@ -265,8 +266,10 @@ pub fn run(ctx: &mut Ctx) {
                         }
                     };
                     let rp = &reference[i];
-                    if !rp.accepted {
-                        // the property speaks about packets every enabled analyzer accepts
+                    // the property speaks about packets every ENABLED analyzer accepts (a packet
+                    // only the TCP analyzer rejects is still judged when TCP analysis is off)
+                    let (h_ok, t_ok, l_ok) = rp.accepted;
+                    if (*http_on && !h_ok) || (*tcp_on && !t_ok) || (*tls_on && !l_ok) {
                         continue;
                     }
                     if started.elapsed().as_secs() >= 5 {
@@ -303,7 +306,7 @@ pub fn run(ctx: &mut Ctx) {
             }
         }
         if ctx.want_sample() {
-            ctx.sample(json!({"trace": t, "frames": trace.len(), "accepted": reference.iter().filter(|p| p.accepted).count(), "example_fields": reference.iter().flat_map(|p| p.fields.iter()).take(2).map(|f| format!("{}: {}", f.name, f.raw)).collect::<Vec<_>>()}));
+            ctx.sample(json!({"trace": t, "frames": trace.len(), "accepted": reference.iter().filter(|p| p.accepted == (true, true, true)).count(), "example_fields": reference.iter().flat_map(|p| p.fields.iter()).take(2).map(|f| format!("{}: {}", f.name, f.raw)).collect::<Vec<_>>()}));
         }
     }
     huginn_net_tcp::verif_hooks::clock::clear();
